@@ -21,7 +21,11 @@ def gen_case(rng, thorough):
         if c < 0.45: r["condition"] = {"pattern": {"who": "?w", "likes": "?l"}}
         elif c < 0.55: r["condition"] = {"or": [{"pattern": {"likes": "?l"}}, {"pattern": {"who": "?w2"}}]}
         elif c < 0.62: r["condition"] = {"not": {"pattern": {"who": "?w"}}}
-        elif c < 0.66: r["condition"] = {"code": "throw 'verifthrow'", "verif_tmpl": {"t": "throw"}}; failing = True
+        elif c < 0.72:
+            # two disjuncts that each return an object: one binding set per disjunct, each with only its own extension
+            t1 = {"t": "bindvar", "k": "n", "x": "w" if "who" in when else "ruleId"}; t2 = {"t": "lit", "v": {"m": rng.choice([1, "z"])}}
+            r["condition"] = {"or": [{"code": js_of_tmpl(t1), "verif_tmpl": t1}, {"code": js_of_tmpl(t2), "verif_tmpl": t2}]}
+        elif c < 0.76: r["condition"] = {"code": "throw 'verifthrow'", "verif_tmpl": {"t": "throw"}}; failing = True
         k = rng.randint(1, 3)
         acts = []
         for _ in range(k):
